@@ -114,7 +114,7 @@ def _confirm_and_minimise(args):
             return ('flaky', rel, d, case)
     cfgd = shrink.min_cfg(case.cfgd, lambda dd: fails_class(case.with_(cfgd=dd)), max_tests=150)
     c2 = case.with_(cfgd=cfgd)
-    if do_src and len(case.src) < 40000:
+    if do_src and len(case.src) < (do_src if (isinstance(do_src, int) and do_src > 1) else 40000):
         src = shrink.min_lines(case.src, lambda s: fails_class(c2.with_(src=s)), max_tests=120 if len(case.src) > 8000 else 250)
         c3 = c2.with_(src=src)
         if fails_class(c3):
@@ -250,6 +250,10 @@ def _hyp_shard(args):
               suppress_health_check=list(HealthCheck))
     @given(make_strategy())
     def test(value):
+        if state['last'] is not None:
+            state['post'] = state.get('post', 0) + 1
+            if state['post'] > 500:         # bounded shrinking: stop evaluating, Hypothesis then settles on the smallest failure seen
+                return
         c = to_case(value)
         if c is None:
             p.count('generator_rejected')
@@ -272,7 +276,7 @@ def _hyp_shard(args):
                 unknown.append((rel, d))
         if not unknown:
             return
-        if state['fail_calls'] > 600:       # bounded shrinking
+        if state['fail_calls'] > 250:       # bounded shrinking
             return
         state['fail_calls'] += 1
         state['last'] = (unknown[0][0], unknown[0][1], c)
